@@ -4,9 +4,10 @@ set -e
 d=$(mktemp -d)
 cp coq/*.v "$d"/
 cd "$d"
-timeout 120 coqc -Q . "" Bits.v >/dev/null
+# files imported by others first: Chunks.v needs Bits.v; Rle.v needs Varint.v and BitPack.v
+for f in Bits.v Varint.v BitPack.v; do timeout 120 coqc -Q . "" "$f" >/dev/null && echo "ok   $f"; done
 for f in *.v; do
-  [ "$f" = Bits.v ] && continue
+  case "$f" in Bits.v|Varint.v|BitPack.v) continue;; esac
   if timeout 300 coqc -Q . "" "$f" >/dev/null 2>&1; then echo "ok   $f"; else echo "FAIL $f"; fi
 done
 grep -n "Admitted\|admit\.\|Axiom\|Parameter " *.v || echo "no Admitted/Axiom/Parameter"
